@@ -24,6 +24,7 @@ fn main() {
             arg(&args, "--m").and_then(|s| s.parse().ok()).unwrap_or(2),
             arg(&args, "--seed").and_then(|s| s.parse().ok()).unwrap_or(1),
         ),
+        "matches" => graphs::main_matches(&out),
         "market" => market::main_market(&inp, &out),
         "testers" => testers::main_testers(&inp, &out),
         "refobjs" => testers::main_refobjs(
